@@ -463,6 +463,12 @@ def feature_counts(cases):
             inc('root namespace other than the 1.4.1 URI')
         if d.get('root_version') != '1.4.1':
             inc('root version attribute absent or unusual')
+        tops = [a for a in d['animations'] if a['sources']]
+        if len(tops) >= 2:
+            inc('two or more top-level animations with sources')
+            ids = [tuple(x['id'] for x in a['sources']) for a in tops]
+            if len(set(ids)) < len(ids):
+                inc('sibling animations declaring the same source ids')
         if d.get('repair_paths'):
             inc('effect whose <texture> names an image directly (loader repair path)')
         for k in d.get('split_libraries', []):
